@@ -298,7 +298,17 @@ impl C20Wire {
                     }
                 }
             }
-            std::thread::sleep(Duration::from_millis(150));
+            // the server may still be working through the last burst: wait until the store has
+            // stopped changing before anything is compared sequentially again
+            let mut last = -1i64;
+            for _ in 0..40 {
+                std::thread::sleep(Duration::from_millis(250));
+                let n = db_rows().map(|r| r.len() as i64).unwrap_or(-2);
+                if n == last {
+                    break;
+                }
+                last = n;
+            }
             self.raw.drain();
             if scrapes > 0 {
                 out.class("scraped-under-dhcp-load");
